@@ -25,6 +25,18 @@ class Run:
         self.t0 = time.time()
         self.tags_done = []
         self.notes = []
+        self.views = {}
+
+    def view_db(self, db, view):
+        """the fact database of the same build with private helpers spliced into their callers (rules/inline.py)"""
+        key = (db.tag, view)
+        if key not in self.views:
+            try:
+                self.views[key] = DB(db.tag, db.files, inline=view)
+            except Exception:
+                self.views[key] = None
+        v = self.views[key]
+        return v if (v is not None and v.inlined) else None
 
     # -- recording -------------------------------------------------------------------------
     def _rec(self, ok, key, detail, where):
@@ -56,13 +68,77 @@ class Run:
         self.notes.append(s)
 
 
-def apply_rule(run, r, db):
+VIEWS = ("cons-broad", "cons", "aggr-broad", "aggr")
+
+
+def _call_rule(run, fn, db):
     try:
-        r["fn"](run, db)
+        fn(run, db)
     except AnchorLost as e:
         run.fail("anchor:" + str(e), "anchor-lost: %s (rule could not locate the construct it checks)" % e)
     except Exception as e:
         run.fail("rule-crash", "rule crashed (treated as anchor loss, fail closed): %s\n%s" % (e, traceback.format_exc()[-1500:]))
+
+
+def with_views(run, fn, db, label=None):
+    """Run one rule function.  A rule speaks about paths through one body.  Before a failure is reported, the same question
+    is asked about the semantically identical program in which private synchronous helpers are spliced into their callers
+    (rules/inline.py): a violation that disappears there was an artefact of where a block of code lives.  The view's answer
+    replaces the base answer only if *every* obligation of the rule holds on it."""
+    start = len(run.obs)
+    _call_rule(run, fn, db)
+    if not isinstance(db, DB) or getattr(db, "inline_mode", None) or os.environ.get("VERIF_NO_INLINE"):
+        return
+    if all(o["ok"] for o in run.obs[start:]):
+        return
+    base = run.obs[start:]
+    for view in VIEWS:
+        vdb = run.view_db(db, view)
+        if vdb is None:
+            continue
+        del run.obs[start:]
+        _call_rule(run, fn, vdb)
+        if all(o["ok"] for o in run.obs[start:]):
+            for o in run.obs[start:]:
+                o.setdefault("view", "helpers-inlined:" + view)
+            run.note("%s%s [%s]: decided on the view with private helpers inlined (%s)" % (run.rule, (" / " + label) if label else "", db.tag, view))
+            return
+    del run.obs[start:]
+    run.obs.extend(base)
+
+
+def apply_rule(run, r, db):
+    with_views(run, r["fn"], db)
+
+
+_WRAPPED = False
+
+
+def wrap_rule_functions(run_getter=None):
+    """rules are composed (`C04.R9 = C05.R5 + C05.R1`) by calling each other through the module attribute: wrap those
+    attributes so that every *part* of a composite rule falls back to the inlined views on its own."""
+    global _WRAPPED
+    if _WRAPPED:
+        return
+    _WRAPPED = True
+    import re as _re, types
+    for name, mod in list(sys.modules.items()):
+        if not _re.fullmatch(r"rules\.c\d\d", name) or mod is None:
+            continue
+        for attr in dir(mod):
+            fn = getattr(mod, attr)
+            if _re.fullmatch(r"r\d+", attr) and isinstance(fn, types.FunctionType) and fn.__module__ == name and not getattr(fn, "_viewed", False):
+                def make(fn, label):
+                    def w(run, db):
+                        if isinstance(db, DB) and not getattr(db, "inline_mode", None):
+                            with_views(run, fn, db, label)
+                        else:
+                            fn(run, db)
+                    w._viewed = True
+                    w.__name__ = fn.__name__
+                    w.__doc__ = fn.__doc__
+                    return w
+                setattr(mod, attr, make(fn, name.split(".")[-1].upper() + "." + attr.upper()))
 
 
 def load_known():
@@ -76,6 +152,7 @@ def load_known():
 def run_property(prop, tier, modname=None):
     """Run all rules of a property. Returns exit code."""
     mod = importlib.import_module("rules." + (modname or prop.lower()))
+    wrap_rule_functions()
     run = Run(prop, tier)
     os.makedirs(EVID, exist_ok=True)
     os.makedirs(os.path.join(EVID, "replay"), exist_ok=True)
@@ -115,7 +192,6 @@ def run_property(prop, tier, modname=None):
         write_evidence(run, mod, extra_violations=1, note="build failure in tags %s" % [t for t, _ in build_failures])
         print("VIOLATION property=%s replay=%s" % (prop, p))
         return 1
-    inl_dbs = {}
     from .model import check_status_order
     for t, d in dbs.items():
         run.rule = prop + ".S"
@@ -147,31 +223,7 @@ def run_property(prop, tier, modname=None):
             if t not in dbs:
                 continue
             run.tag = t
-            start = len(run.obs)
             apply_rule(run, r, dbs[t])
-            if any(not o["ok"] for o in run.obs[start:]) and not os.environ.get("VERIF_NO_INLINE"):
-                # A rule speaks about paths through one body.  Before reporting, ask the same question about the
-                # semantically identical program in which private synchronous helpers are spliced into their callers
-                # (rules/inline.py): a violation that disappears there was an artefact of where a block of code lives.
-                base = run.obs[start:]
-                for view in ("cons", "aggr"):
-                    key = (t, view)
-                    if key not in inl_dbs:
-                        try:
-                            inl_dbs[key] = DB(t, dbs[t].files, inline=view)
-                        except Exception:
-                            inl_dbs[key] = None
-                    if inl_dbs[key] is None or not inl_dbs[key].inlined:
-                        continue
-                    del run.obs[start:]
-                    apply_rule(run, r, inl_dbs[key])
-                    if all(o["ok"] for o in run.obs[start:]):
-                        for o in run.obs[start:]:
-                            o["view"] = "helpers-inlined:" + view
-                        run.note("%s [%s]: decided on the view with private helpers inlined (%s)" % (r["id"], t, view))
-                        break
-                    del run.obs[start:]
-                    run.obs.extend(base)
     run.tags_done = tags_needed
     if tier == "thorough" and not os.environ.get("VERIF_NO_SELFTEST") and build.REPO == "/repo":
         try:
